@@ -55,7 +55,10 @@ def build_file(lz, coders, item):
     return data, b"".join(plain), layout, streams
 
 def damage(data, layout, streams, dmg):
-    """CRC-consistent damage of Stream k: wrong Backward Size, or a wrong Unpadded Size in the first Record."""
+    """CRC-consistent damage of Stream k: wrong Backward Size, or a wrong Unpadded Size in the first Record;
+    or Stream Paddings that are not multiples of four (while the file size still is)."""
+    if dmg["kind"] == "oddpad":
+        return data, layout              # the paddings themselves are the damage (not multiples of four)
     k = dmg["stream"]; b = bytearray(data)
     start = sum(24 + l[0] + l[1] + l[2] for l in layout[:k])
     fstart = start + 12 + layout[k][0] + layout[k][1]
